@@ -25,7 +25,7 @@ ASSUMPTIONS = [
 BUDGET = {"quick": 70, "thorough": 800}
 ROUNDS = {"thorough": 10}
 FLOORS = {"overlay.C06.judged": {"quick": 100, "thorough": 1500}, "overlay.C06.branch_lengths_judged": {"quick": 100, "thorough": 1500}, "validity_checks": {"quick": 1500, "thorough": 15000}, "round_trips_single": 300, "round_trips_batched": 300,
-          "moves": 200, "moves_smooth_max": 20, "smooth_max_round_trips": 40, "keep_branch_lengths_checks": 100, "keep_kinds": 3, "transformed_inputs": 100, "api_inplace_updates": 100, "float32_default_checks": 40, "postorder_option_checks": 20, "heterochronous": 300}
+          "moves": 200, "moves_smooth_max": 20, "smooth_max_round_trips": 40, "keep_branch_lengths_checks": 100, "keep_kinds": 3, "transformed_inputs": 100, "reads_after_update": 300, "api_inplace_updates": 100, "float32_default_checks": 40, "postorder_option_checks": 20, "heterochronous": 300}
 
 
 def EXHAUSTIVE(tier):
@@ -202,18 +202,23 @@ def _run_case(case):
     tree = dic["tree"]
     kind0 = type(tree.transform).__name__
 
-    def read(where, tol=0.0):
-        nh = tt.as_np(tree.node_heights, "C06:not-a-tensor:" + tag, "node_heights")
-        bl = tt.as_np(tree.branch_lengths(), "C06:not-a-tensor:" + tag, "branch_lengths()")
+    def read(where, tol=0.0, refcase=None, heights_first=True):
+        refcase = refcase or case
+        if heights_first:
+            nh = tt.as_np(tree.node_heights, "C06:not-a-tensor:" + tag, "node_heights")
+            bl = tt.as_np(tree.branch_lengths(), "C06:not-a-tensor:" + tag, "branch_lengths()")
+        else:
+            bl = tt.as_np(tree.branch_lengths(), "C06:not-a-tensor:" + tag, "branch_lengths()")
+            nh = tt.as_np(tree.node_heights, "C06:not-a-tensor:" + tag, "node_heights")
         rows = range(B) if B else [None]
         if B and (nh.ndim != 2 or nh.shape[0] != B or bl.shape[0] != B):
             V.append(tt.viol("C06:batch-shape:" + tag, "%s: node_heights %s / branch_lengths %s for batch %d" % (where, nh.shape, bl.shape, B), case=case))
             return nh
         for r in rows:
-            root, href = gt.ref_heights(case, r)
+            root, href = gt.ref_heights(refcase, r)
             a = nh if r is None else nh[r]
             b = bl if r is None else bl[r]
-            _validate(V, C, case, root, a.astype(float), b.astype(float), r, where, tol)
+            _validate(V, C, refcase, root, a.astype(float), b.astype(float), r, where, tol)
             if a.shape[-1] == 2 * n - 1:
                 C["reference_height_comparisons"] += 1
                 t = max(1e-12, tol * 10)
@@ -254,6 +259,23 @@ def _run_case(case):
         # ratios near 0/1 amplify round-off in the inverse: judged relative to the conditioning
         if not ok:
             V.append(tt.viol("C06:inverse:%s:%s" % (tag, "batched" if B else "single"), "inv(forward(x)) != x (%s; batch %s, %d taxa)" % (detail, B or "[]", n), case=case))
+    # after an update through the public parameter interface the model is the tree of the new values, whichever of heights and branch
+    # lengths is read first (both were read once above, so both caches exist)
+    if case["move"] == "none" and not V and not case.get("smooth_rt"):
+        import copy
+
+        case2 = copy.deepcopy(case)
+        sc = lambda v, f: (np.asarray(v, dtype=float) * f).tolist()
+        if case["param"] == "ratio":
+            case2["ratios"], case2["root_height"] = sc(case["ratios"], 0.9), sc(case["root_height"], 1.15)
+            if n > 2:
+                dic["tree.ratios"].tensor = torch.tensor(case2["ratios"], dtype=torch.float64)
+            dic["tree.root_height"].tensor = torch.tensor(case2["root_height"], dtype=torch.float64)
+        else:
+            case2["shifts"] = sc(case["shifts"], 1.3)
+            dic["tree.shifts"].tensor = torch.tensor(case2["shifts"], dtype=torch.float64)
+        C["reads_after_update"] = 1
+        read("after an update, %s read first" % ("heights" if len(case["newick"]) % 2 else "branch lengths"), refcase=case2, heights_first=bool(len(case["newick"]) % 2))
     # the increment parameterisation with a smooth maximum of temperature k: still a valid tree, still invertible
     if case["param"] == "shift" and case.get("smooth_rt") and not V:
         from torchtree.evolution.tree_height_transform import DifferenceNodeHeightTransform
